@@ -358,6 +358,12 @@ def S00_of(run, inp):
     return run.transforms[0].result.at(Num(0), Num(0))
 
 
+def S00_of_at(run, inp, k):
+    """S00 for a second run in the same symbolic execution (its pad widths start at int_defs[k])."""
+    (px, _), (py, _) = run.int_defs[k], run.int_defs[k + 1]
+    return Cx(Num(1) / ((inp.nx + 2 * px) * (inp.ny + 2 * py)), 0)
+
+
 def explore_paths(ctx, cfgs=None):
     """Development aid: list the paths of S per configuration."""
     ns = make_namespace(ctx)
